@@ -16,7 +16,7 @@ from ..gen import triggers
 SUBJECT_EXCLUDED = {"lazy-ignores"}  # its subject is the suppression comments themselves
 CM = {"py": "#", "ts": "//", "js": "//", "rs": "//"}
 FORMS = ["same-line", "next-line", "block", "file@1", "file@5", "file@10", "file@11", "file@40", "thailintignore", "config-ignore", "linter-ignore"]
-SPELLINGS = ["full", "prefix", "wildcard", "upper", "mixed-list", "bare"]
+SPELLINGS = ["full", "prefix", "wildcard", "upper", "mixed-list", "bare", "wildcard-upper", "wildcard-mixed-case", "prefix-mixed-case", "full-mixed-case"]
 NEG_SPELLINGS = ["other-rule", "other-prefix"]
 SECTION = {"pipeline": "collection-pipeline", "perf": "performance", "string-concat-loop": "performance", "regex-in-loop": "performance",
            "print-statements": "print-statements", "improper-logging": "improper-logging"}
@@ -50,6 +50,14 @@ def spell(rule_id: str, kind: str):
         return [prefix + ".*"]
     if kind == "upper":
         return [rule_id.upper()]
+    if kind == "wildcard-upper":
+        return [prefix.upper() + ".*"]
+    if kind == "wildcard-mixed-case":
+        return [prefix.title() + ".*"]
+    if kind == "prefix-mixed-case":
+        return [prefix.title()]
+    if kind == "full-mixed-case":
+        return [rule_id.title()]
     if kind == "mixed-list":
         return ["some-other.rule", rule_id]
     if kind == "alias":
@@ -224,8 +232,10 @@ def run(ctx):
                 spellings = ["full"]
                 if not ctx.quick or rng.random() < 0.25:
                     spellings = SPELLINGS + (["alias"] if tv[0] in ALIASES else [])
-                elif form in ("same-line", "file@1"):
-                    spellings = ["full", rng.choice(SPELLINGS[1:])] + (["alias"] if tv[0] in ALIASES and form == "same-line" else [])
+                elif form == "same-line":
+                    spellings = list(SPELLINGS) + (["alias"] if tv[0] in ALIASES else [])
+                elif form == "file@1":
+                    spellings = ["full", rng.choice(SPELLINGS[1:])]
                 if form == "linter-ignore" and c not in LINTER_IGNORE_DOCUMENTED:
                     continue
                 if form in ("thailintignore", "config-ignore", "linter-ignore"):
@@ -264,7 +274,7 @@ def run(ctx):
                 exp_c = [v for v in bv if v[1] != f]
                 exp_w = list(bw)
         else:
-            if cell["spelling"] == "wildcard" and "." not in rule_id:
+            if cell["spelling"].startswith("wildcard") and "." not in rule_id:
                 continue  # 'prefix.*' for a rule id without a dot: not a documented spelling
             names = spell(rule_id, cell["spelling"])
             res = apply(files, f, line, form, names, cell["placement"])
